@@ -649,6 +649,21 @@ func init() {
 	}
 	intrinsics["os.Getenv"] = func(fr *frame, args []value) value { return "" }
 	intrinsics["runtime.Gosched"] = nop
+	// func clone(m any) any (linknamed to the runtime): a shallow copy of the map, nil stays nil
+	intrinsics["maps.clone"] = func(fr *frame, args []value) value {
+		it := args[0].(iface)
+		m, _ := it.v.(*symMap)
+		if m == nil {
+			return it
+		}
+		c := makeMap(m.keyType, 0).(*symMap)
+		for _, e := range m.entries {
+			if e.live {
+				c.insert(fr.i, e.key, e.val)
+			}
+		}
+		return iface{t: it.t, v: c}
+	}
 	// func Caller(skip int) (pc uintptr, file string, line int, ok bool): the interpreter has no machine stack;
 	// callers (diagnostic bookkeeping only) are told that the information is unavailable
 	intrinsics["runtime.Caller"] = func(fr *frame, args []value) value {
